@@ -395,8 +395,12 @@ impl THistory {
             260 => {
                 let (k, rounds) = (u(1).unwrap_or(0), u(2).unwrap_or(3));
                 let dt = u(3).unwrap_or(250_000_000);
+                // C18 across the full stack: a handshake datagram the server sent to this client in one good round (a
+                // challenge while the client asks, a keep-alive while it answers), sealed for its token and coming from the
+                // address the client currently talks to, moves the handshake on at the client's next update
+                let mut expect: Option<(u8, usize)> = None;
                 for _ in 0..rounds {
-                    self.good_round(k, dt);
+                    expect = self.good_round(k, dt, expect);
                 }
             }
             220 => {
@@ -675,12 +679,19 @@ impl THistory {
     }
 
     /// client tick + flush, everything relayed; server tick + flush, everything relayed back
-    fn good_round(&mut self, k: u64, dt: u64) {
+    fn good_round(&mut self, k: u64, dt: u64, expect: Option<(u8, usize)>) -> Option<(u8, usize)> {
         if !self.clients.contains_key(&k) {
-            return;
+            return None;
         }
         let before = self.clients[&k].out.len();
         self.run_inner(203, &[n(203u8), n(k), n(dt)], &|i| [203u64, k, dt].get(i).copied());
+        if let (Some((st0, idx0)), Some(c)) = (expect, self.clients.get(&k)) {
+            let (st1, _, _, _, idx1, _) = c.transport.verif_netcode_client().verif_state();
+            if st1 == st0 && idx1 == idx0 && !self.res.panicked {
+                self.violate("C18", format!("client {} stays in handshake step {} although the server's {} reached its socket from the address it talks to: the handshake never completes at this address", k, st0, if st0 == 1 { "challenge" } else { "keep-alive" }));
+                self.violate("C20", format!("the transport of client {} did not hand a handshake datagram from its current server address to the netcode client (step {} unchanged)", k, st0));
+            }
+        }
         self.run_inner(204, &[n(204u8), n(k)], &|i| [204u64, k].get(i).copied());
         let after = self.clients[&k].out.len();
         for i in before..after {
@@ -695,6 +706,21 @@ impl THistory {
             let back = (inbox_after - 1 - i) as u64;
             self.relay(251, &[], &|j| [251u64, k, back, 0, 0, 0].get(j).copied());
         }
+        // what the next update of this client must achieve
+        let fa = self.front_addr();
+        let c = self.clients.get(&k)?;
+        let nc = c.transport.verif_netcode_client();
+        let (st, _, _, _, idx, _) = nc.verif_state();
+        let token = self.tokens.get(&c.token)?;
+        if (st != 1 && st != 2) || nc.server_addr() != fa {
+            return None;
+        }
+        let wanted = if st == 1 { 2u8 } else { 4u8 };
+        let arrived = c.inbox[inbox_before..inbox_after].iter().any(|d| {
+            let mut copy = d.clone();
+            d.first().map(|p| p & 15 == wanted).unwrap_or(false) && renetcode::verif::Packet::decode(&mut copy, token.protocol_id, Some(&token.server_to_client_key), None).is_ok()
+        });
+        if arrived { Some((st, idx)) } else { None }
     }
 
     /// C20: after every server transport update the message layer and the handshake layer list the same clients
@@ -708,10 +734,25 @@ impl THistory {
         let still_disconnected = rs.disconnections_id();
         let fresh: Vec<u64> = renet.iter().filter(|id| !self.known_ids.contains(id)).copied().collect();
         self.known_ids = renet.clone();
+        let now_secs = t.verif_netcode_server().current_time().as_secs();
+        let mut expired_on_arrival: Vec<(u64, u64)> = vec![];
         for id in fresh {
             // a new session: what the server submitted to / obtained from an earlier session of this id does not count
             self.srv_sent.retain(|(i, _), _| *i != id);
             self.srv_got.retain(|(i, _), _| *i != id);
+            // C05: the token of a session that has just been established has not expired on the server's clock (a half-open
+            // session lives through the second its token expires in, so the comparison is strict)
+            let addr = t.verif_netcode_server().client_addr(id);
+            let token = self.clients.values().find(|c| Some(c.back.local_addr().unwrap()) == addr).and_then(|c| self.tokens.get(&c.token));
+            if let Some(tok) = token {
+                if tok.client_id == id && tok.expire_timestamp < now_secs {
+                    expired_on_arrival.push((id, tok.expire_timestamp));
+                }
+            }
+        }
+        for (id, exp) in expired_on_arrival {
+            self.violate("C05", format!("client {} was connected by an update that ends at second {} of the server's clock, its connect token expired at second {}", id, now_secs, exp));
+            self.violate("C20", format!("the server transport judged the handshake of client {} on the clock of its previous update (token expiry {} s, clock now {} s)", id, exp, now_secs));
         }
         if net != renet {
             self.violate("C20", format!("after NetcodeServerTransport::update the netcode layer lists clients {:?} and the message layer {:?}", net, renet));
